@@ -17,7 +17,7 @@ type C15Case struct {
 }
 
 func genC15(t *rapid.T) C15Case {
-	lim := genLimits(t)
+	lim := genLimitsGiant(t)
 	if thorough() && lim.maxAdd <= 200 {
 		lim.maxLeaves, lim.maxBlocks, lim.maxAdd = 500, 40, 60
 	}
